@@ -205,6 +205,25 @@ CLAIMS.update({
         ref="§7 C16"),
 })
 
+CLAIMS.update({
+    "C18": dict(
+        technique="Lean 4 refinement proof over all histories of add_rule / delete_rule (rule list of every language = original ++ survivors = what a fresh calculator gets from the survivors alone), return-value and no-op theorems for all four mutators, decline / effect theorems on the rewrite pass + histories replayed on implementation, model and a fresh implementation",
+        text="Proof (every number type): add_rule fails iff the language is unknown, delete_rule iff the language or an API rule of that name is missing, and "
+             "a failing call changes nothing (addRule_false_iff/_noop, deleteRule_false_iff/_noop); after ANY history the rule list of every language is "
+             "the original one transformed by exactly the calls addressed to it and nothing else of the configuration changes (run_rules, run_frame, via "
+             "lang_setLang / step_rules); with only internal rules to start from that list is original ++ survivors, a deletion removing the FIRST rule "
+             "of the name, and registering just the survivors in order yields the same list (applyOps_base, history_eq_survivors) - the calculator is "
+             "the one a fresh instance would be; a declining rule leaves the token list as if absent (tryPats_decline, decline_noop); a matching "
+             "pattern whose rule returns a token replaces exactly the matched range, fields bound by name (api_effect, echo_binds_by_name, "
+             "const_returns); duplicate family names / item indices / unknown families are rejected without change (addDynamicType*_false_iff/_noop); "
+             "user families convert by the chain theorem of C12 (user_family_converts). Implementation: histories of 5-60 calls with checkpoints compared "
+             "against the specification's return values, against a FRESH calculator replaying only the survivors, against exact chain factors, and "
+             "replayed op by op on the Lean model (patterns tokenised by the implementation itself). Two panics repaired earlier in /repo (index 0, "
+             "pattern without value field).",
+        note="Trusted: Lean kernel + 3 axioms; rule behaviours limited to five canned RuleTrait implementations shared by harness and model; pattern lexing is the implementation's own.",
+        ref="§7 C18"),
+})
+
 NOT_YET = {}
 
 
